@@ -31,6 +31,8 @@ type violation struct {
 
 type simNode struct {
 	id    uint64
+	cid   uint64
+	decoy bool // member of the second cluster (C20 profile): runs real code, only identity oracles apply
 	addr  string
 	inc   *nodeInc // running incarnation, nil when down
 	incs  []*nodeInc
@@ -72,6 +74,12 @@ func (ni *nodeInc) String() string { return fmt.Sprintf("n%d.%d", ni.node.id, ni
 // live: running, not crashed, New succeeded
 func (ni *nodeInc) live() bool { return ni != nil && !ni.dead && !ni.exited && ni.r != nil }
 
+// locked: the lock file of the directory exists, i.e. the instance is past lockDir and before unlockDir.
+func (ni *nodeInc) locked() bool {
+	_, err := os.Stat(filepath.Join(ni.dir, "lock"))
+	return err == nil
+}
+
 // consistent: the raft goroutine is parked where storage and volatile state
 // are mutually consistent (not inside a file or lock operation).
 func (ni *nodeInc) consistent() bool {
@@ -110,6 +118,7 @@ type simRun struct {
 	stop    bool
 	viol    *violation
 	infra   string
+	decoys  []*simNode
 	clients []*client
 	nextCmd uint64
 	ops     []*opRec
@@ -264,6 +273,27 @@ func newSimRun(seed uint64, prof profile, tape *rt.Tape, quiesce func()) *simRun
 			return 1 + tape.Choose(rt.StNet, 24)
 		}
 	}
+	if prof.Misroute > 0 {
+		run.net.Route = func(from *rt.NodeCtx, addr string) *simnet.Listener {
+			l := run.net.Listeners[addr]
+			if run.phase == "chaos" && tape.Chance(rt.StNet, prof.Misroute, 1000) {
+				// the dial ends up at some other node's listener (address mix-up, reuse, resolver answer)
+				var addrs []string
+				for a := range run.net.Listeners {
+					addrs = append(addrs, a)
+				}
+				sort.Strings(addrs)
+				if len(addrs) > 0 {
+					o := run.net.Listeners[addrs[tape.Choose(rt.StNet, len(addrs))]]
+					if o != l {
+						run.fault("misroute")
+						return o
+					}
+				}
+			}
+			return l
+		}
+	}
 	run.led.init(run)
 	run.net.OnClose = func(c *simnet.Conn) {
 		if c.NC != nil && c.Peer != nil && c.Peer.NC != nil {
@@ -284,7 +314,7 @@ func (run *simRun) setup() {
 	simioutil.ResetTemp()
 	n := run.cfg.Voters + run.cfg.Nonvoters + run.cfg.Spares
 	for i := 1; i <= n; i++ {
-		node := &simNode{id: uint64(i), addr: nodeAddr(uint64(i))}
+		node := &simNode{id: uint64(i), cid: simCID, addr: nodeAddr(uint64(i))}
 		node.dir = filepath.Join(run.baseDir, fmt.Sprintf("n%d-0", i))
 		_ = os.MkdirAll(node.dir, 0700)
 		run.nodes = append(run.nodes, node)
@@ -327,6 +357,9 @@ func (run *simRun) setup() {
 	for _, node := range run.nodes {
 		run.startNode(node)
 	}
+	if run.prof.TwoClusters {
+		run.setupDecoys()
+	}
 	run.phase = "chaos"
 	if !run.cfg.Preseed {
 		run.spawnAdmin("bootstrap", func(a *admin) { a.bootstrap(boot) })
@@ -337,6 +370,61 @@ func (run *simRun) setup() {
 	run.spawnAdmin("monitor", func(a *admin) { a.monitor() })
 	run.sim.After(int64(run.cfg.TickEvery), "tick", run.tick)
 	run.sim.After(int64(run.cfg.ChaosLen), "heal", run.heal)
+}
+
+// setupDecoys starts a second, independent cluster with its own cluster id and
+// overlapping node ids on the same simulated network (C20).
+func (run *simRun) setupDecoys() {
+	nb := 1 + run.tape.Choose(rt.StConfig, 3)
+	shareAddrs := run.tape.Chance(rt.StConfig, 1, 2)
+	conf := Config{Nodes: map[uint64]Node{}, Index: 1, Term: 1}
+	for i := 1; i <= nb; i++ {
+		id := uint64(i)
+		addr := fmt.Sprintf("b%d:7000", i)
+		conf.Nodes[id] = Node{ID: id, Addr: addr, Voter: true}
+	}
+	if shareAddrs && nb >= 2 {
+		// the other cluster believes that one of its members lives at an address of ours
+		n := conf.Nodes[uint64(nb)]
+		n.Addr = nodeAddr(uint64(1 + run.tape.Choose(rt.StConfig, len(run.nodes))))
+		conf.Nodes[uint64(nb)] = n
+		run.reach("decoy_config_points_at_our_address")
+	}
+	var first string
+	for i := 1; i <= nb; i++ {
+		node := &simNode{id: uint64(i), cid: simCID + 1, decoy: true, addr: fmt.Sprintf("b%d:7000", i)}
+		node.dir = filepath.Join(run.baseDir, fmt.Sprintf("b%d-0", i))
+		_ = os.MkdirAll(node.dir, 0700)
+		if i > 1 {
+			_ = copyDir(first, node.dir)
+			ids, _ := filepath.Glob(filepath.Join(node.dir, "*.id"))
+			for _, f := range ids {
+				_ = os.Remove(f)
+			}
+		}
+		if err := SetIdentity(node.dir, node.cid, node.id); err != nil {
+			run.infra = "decoy identity: " + err.Error()
+			return
+		}
+		if i == 1 {
+			first = node.dir
+			st, err := openStorage(node.dir, run.simOptions())
+			if err == nil {
+				err = st.bootstrap(conf.clone())
+			}
+			if err == nil {
+				err = st.log.Close()
+			}
+			if err != nil {
+				run.infra = "decoy bootstrap: " + err.Error()
+				return
+			}
+		}
+		run.decoys = append(run.decoys, node)
+	}
+	for _, node := range run.decoys {
+		run.startNode(node)
+	}
 }
 
 // bootConfig: all voters plus non-voters in one stable configuration.
@@ -355,7 +443,11 @@ func (run *simRun) startNode(node *simNode) *nodeInc {
 	if int(node.id) < len(run.cfg.ClockPPM) {
 		ppm = run.cfg.ClockPPM[node.id]
 	}
-	ni.nc = &rt.NodeCtx{ID: int(node.id), Inc: ni.n, ClockPPM: ppm, ClockOff: int64(node.id) * 3600e9, User: ni}
+	ncID := int(node.id)
+	if node.decoy {
+		ncID = 100 + int(node.id)
+	}
+	ni.nc = &rt.NodeCtx{ID: ncID, Inc: ni.n, ClockPPM: ppm, ClockOff: int64(ncID) * 3600e9, User: ni}
 	ni.fsm = &recFSM{inc: ni}
 	l, err := run.net.Listen(ni.nc, node.addr)
 	if err != nil {
@@ -485,7 +577,7 @@ func (run *simRun) tick() {
 	run.sim.After(int64(run.cfg.TickEvery), "tick", run.tick)
 	p := run.prof
 	t := run.tape
-	weights := []int{p.Partition, p.Heal, p.Crash, p.Restart, p.Stall, p.ConnReset, p.ConnStall, p.Transfer, p.Member, p.Snapshot, p.WipeNonvoter}
+	weights := []int{p.Partition, p.Heal, p.Crash, p.Restart, p.Stall, p.ConnReset, p.ConnStall, p.Transfer, p.Member, p.Snapshot, p.WipeNonvoter, p.Intruder}
 	total := 0
 	for _, w := range weights {
 		total += w
@@ -528,6 +620,8 @@ func (run *simRun) tick() {
 		run.spawnAdmin("snapshot", func(a *admin) { a.snapshot() })
 	case 10:
 		run.doWipeNonvoter()
+	case 11:
+		run.spawnAdmin("intruder", func(a *admin) { a.intruder() })
 	}
 }
 
@@ -749,7 +843,7 @@ func (run *simRun) beginShutdown() {
 	run.phase = "shutdown"
 	run.shutdownAt = run.sim.Now
 	run.sim.After(10*int64(run.cfg.HB), "shutdown-watch", run.shutdownWatch)
-	for _, n := range run.nodes {
+	for _, n := range append(append([]*simNode(nil), run.nodes...), run.decoys...) {
 		if n.inc != nil && !n.inc.exited {
 			ni := n.inc
 			ni.stopping = true
